@@ -850,9 +850,14 @@ def Doc.decryptRaw (P : Prims) (d : Doc) (pw : Bytes) : Except Err Doc :=
                   objects := (match encId with | some id => Objects.erase os id | none => os), maxId := d.maxId }
   | none => .error .notEncrypted
 
-/-- `sanitize_password_r4` = `encodings::string_to_bytes(&PDF_DOC_ENCODING, pw)` on the UTF-16 code
-units of the password: a unit that is not in the table is DROPPED (`filter_map`). -/
-def sanitizeR4 (units : List Nat) : Bytes :=
-  units.filterMap fun u => (PDF_DOC_ENCODING.findIdx? (fun c => c == some u)).map Nat.toUInt8
+/-- `sanitize_password_r4` on the UTF-16 code units of the password: every unit is looked up in
+PDFDocEncoding (first position); a unit that is not in the table is an ERROR
+(`DecryptionError::UnrepresentablePassword`, `none` here) — it is never dropped. -/
+def sanitizeR4 : List Nat → Option Bytes
+  | [] => some []
+  | u :: rest =>
+    match PDF_DOC_ENCODING.findIdx? (fun c => c == some u), sanitizeR4 rest with
+    | some i, some bs => some (i.toUInt8 :: bs)
+    | _, _ => none
 
 end Lopdf.Crypt
